@@ -1417,7 +1417,7 @@ Proof. intros H1 H2 H3. rewrite restart_is_redo. exact (proj2 (replay_any_time n
 (** EVALSHA of a cached script leaves exactly the record of the EVAL of that script; a digest
     that names no script leaves none *)
 Lemma evalsha_record t s c dbi ca nm h nk rest sha src :
-  str_arg h = Some sha -> alookup sha ca = Some src ->
+  str_arg h = Some sha -> alookup (lower sha) ca = Some src ->
   s_aof (snd (h_evalsha t s c dbi ca (FBulk nm :: h :: nk :: rest))) =
   aof_push (s_aof s) dbi (FBulk (bs "EVAL") :: FBulk src :: nk :: rest).
 Proof.
@@ -1427,7 +1427,7 @@ Proof.
   cbn [snd]. rewrite s_aof_log_aof_in. reflexivity.
 Qed.
 Lemma evalsha_unknown t s c dbi ca nm h nk rest sha :
-  str_arg h = Some sha -> alookup sha ca = None ->
+  str_arg h = Some sha -> alookup (lower sha) ca = None ->
   snd (h_evalsha t s c dbi ca (FBulk nm :: h :: nk :: rest)) = s.
 Proof. intros Hs Hc. unfold h_evalsha. rewrite Hs, Hc. reflexivity. Qed.
 
